@@ -197,3 +197,29 @@ def run_big(ctx, res, props):
     for v in viol:
         if set(v["props"]) & set(props):
             res.findings.append(Finding("big:" + v["signature"], v["detail"], {"engine": "e1-scenario", "scenario": scen}))
+
+
+def run_stuck(ctx, res, sigs=None):
+    """the stuck-session cases (sircv/stuck.py): every ending x a few seeds; `sigs`: finding signatures that concern
+    the calling property (None = all)"""
+    import multiprocessing
+    from .. import stuck
+    binary, hooks = ctx.binary()
+    reps = 2 if ctx.quick else 12
+    jobs = [(binary, hooks, s, e) for e in stuck.ENDINGS for s in ctx.seeds(reps, "stuck-" + e)]
+    with multiprocessing.Pool(8) as pool:
+        outs = pool.map(stuck.run_case, jobs)
+    done = 0
+    for o in outs:
+        if o["inconclusive"]:
+            res.inconclusive += 1
+            res.inconclusive_notes.append(o["inconclusive"][:200])
+            continue
+        done += 1
+        res.evaluations += 1
+        res.distinct.add(repr(o["cls"]))
+        for sig, detail in o["findings"]:
+            if sigs is None or sig in sigs:
+                res.findings.append(Finding(sig, detail, {"engine": "stuck", "ending": o["ending"]}))
+    res.extra["stuck_session_cases"] = done
+    return done
